@@ -678,21 +678,22 @@ Proof.
   rewrite E. ring.
 Qed.
 
-(* record length: label + table field + filler = 50 + nx*ny = one data record; the table
-   field the reader maps is LENH bytes long although LENH already counts the 108 fixed bytes,
-   so the filler has 108 bytes less than the index record's padding *)
+(* record length: label + table field + filler = 50 + nx*ny = one data record; the table field
+   the reader maps (in inqarlpackedbit and in maparlpackedbit) is LENH - 108 bytes long, i.e.
+   exactly the level/variable table, and the filler is exactly the index record's padding *)
 Lemma gen_record_length nx ny hlen :
   let nc := G.arl_ncell nx ny in
   let hdr := G.arl_hdrlen nc hlen (G.dtype_itemsize G.arl_thdtype) in
   G.dtype_itemsize G.arl_thdtype + G.arl_vardeflen hlen + hdr = 50 + nx * ny
   /\ G.dtype_itemsize (G.arl_lay1dtype ny nx) = 50 + nx * ny
-  /\ hdr = (nx * ny - hlen) - 108
+  /\ hdr = nx * ny - hlen
+  /\ G.arl_vardeflen hlen = hlen - 108 /\ G.arl_inq_vheaderlen hlen = hlen - 108
   /\ G.dtype_itemsize G.arl_thdtype = 50 + 108.
 Proof.
-  cbn zeta. unfold G.arl_hdrlen, G.arl_vardeflen, G.arl_ncell, G.arl_lay1dtype.
+  cbn zeta. unfold G.arl_hdrlen, G.arl_vardeflen, G.arl_inq_vheaderlen, G.arl_ncell, G.arl_lay1dtype.
   change (G.dtype_itemsize G.arl_thdtype) with 158.
   unfold G.dtype_itemsize at 1. cbn [fold_right fst snd]. change (G.dtype_itemsize G.arl_vhdtype) with 50.
-  repeat split; lia.
+  repeat split; try ring; lia.
 Qed.
 
 (* reader and writer agree on the table entry widths; checksum and scale expressions *)
